@@ -67,6 +67,10 @@ func (p MACPayload) MarshalBinary() ([]byte, error) {
 func (p *MACPayload) UnmarshalBinary(uplink bool, data []byte) error {
 	dataLen := len(data)
 
+	// a value that was used before must not keep its optional members
+	p.FPort = nil
+	p.FRMPayload = nil
+
 	// check that there are enough bytes to decode a minimal FHDR
 	if dataLen < 7 {
 		return errors.New("lorawan: at least 7 bytes needed to decode FHDR")
